@@ -94,3 +94,15 @@ Proof.
   destruct (any_cut_on (sample_base rate inif outif flen) f n Hwf (sample_base_ok rate inif outif flen)) as (m & Hp & Hc & Hl).
   unfold sample_base in Hp. rewrite Hp. exists m. split; [reflexivity|split; assumption].
 Qed.
+
+(* IPFIX dataLinkFrameSection (element 315) carrying a frame captured at ANY length *)
+Theorem ipfix_frame_section_cut f n m0 base up :
+  wf_frame f = true -> base_ok m0 ->
+  exists m1, parse_packet empty_pcfg m0 (firstn n (encode_frame f)) = Ok m1 /\ cols_ok m0 m1 f /\ layers_ok m1 f /\
+    nf_field empty_prodcfg 10 base up m0 315 (firstn n (encode_frame f)) =
+    Ok (let m2 := msetI m1 cPackets 1 in if mgetI m2 cBytes =? 0 then msetI m2 cBytes (lenN (firstn n (encode_frame f))) else m2).
+Proof.
+  intros Hwf Hb. destruct (any_cut_on m0 f n Hwf Hb) as (m1 & Hp & Hc & Hl).
+  exists m1. split; [exact Hp|]. split; [exact Hc|]. split; [exact Hl|].
+  unfold nf_field. cbn [N.eqb Pos.eqb empty_prodcfg pPacket]. rewrite Hp. reflexivity.
+Qed.
